@@ -71,6 +71,45 @@ var c23Peers = []c23Named{
 	{"p5(b31^01)", c23Addr(c23Mask{31, 0x01})},                   // bin 31 (MaxPO), differs from self in the last bit
 	{"p6(b31^02)", c23Addr(c23Mask{31, 0x02})},                   // bin 31
 	{"p7(b0^80,b31^01)", c23Addr(c23Mask{0, 0x80}, c23Mask{31, 0x01})}, // bin 0, differs from p0 only in the last byte
+	// only used by the large configurations (9..12 connected peers)
+	{"p8(b0^30)", c23Addr(c23Mask{0, 0x30})},   // bin 2
+	{"p9(b0^10)", c23Addr(c23Mask{0, 0x10})},   // bin 3
+	{"p10(b1^40)", c23Addr(c23Mask{1, 0x40})},  // bin 9
+	{"p11(b31^04)", c23Addr(c23Mask{31, 0x04})}, // bin 31
+}
+
+// the exhaustive subset enumeration runs over the first c23Small peers
+const c23Small = 8
+
+// large configurations: more connected peers than any subset, so that skip lists and ClosestPeers limits of
+// every length 0..n (n = 9, 10, 12) occur
+var c23Large = [][]int{
+	{0, 1, 2, 3, 4, 5, 6, 7, 8, 9, 10, 11},
+	{1, 2, 3, 4, 6, 7, 8, 9, 10, 11},
+	{0, 1, 2, 3, 4, 5, 8, 9, 10},
+}
+
+// reachability patterns of the large configurations (per position in the set): 1 public, 0 never reported, 2 private
+var c23LargeReachNames = []string{"all public", "none public (alternating never reported / private)", "alternating public / not public", "nearest-bin half not public"}
+
+func c23LargeReach(pattern, pos, n int) int {
+	np := []int{0, 2}[pos%2]
+	switch pattern {
+	case 0:
+		return 1
+	case 1:
+		return np
+	case 2:
+		if pos%2 == 0 {
+			return 1
+		}
+		return []int{0, 2}[(pos/2)%2]
+	default:
+		if pos < n/2 {
+			return 1
+		}
+		return np
+	}
 }
 
 // extra targets that are nobody's address
@@ -177,14 +216,18 @@ func TestVerifC23(t *testing.T) {
 	// thorough: every peer independently unknown / public / private; quick: public or
 	// not public, where "not public" is unknown for even alphabet positions and private for odd ones
 	reachArity := mc.Pick(2, 3)
-	subsets := c23Subsets(len(c23Peers), maxSize)
+	subsets := c23Subsets(c23Small, maxSize)
 	// largest arity first (sharding)
 	sort.SliceStable(subsets, func(i, j int) bool { return len(subsets[i]) > len(subsets[j]) })
+	nSmall := len(subsets)
+	subsets = append(append([][]int{}, c23Large...), subsets...)
 	self := c23ExtraTargets[0].addr
 
 	var targets []c23Named
-	targets = append(targets, c23Peers...)
+	targets = append(targets, c23Peers[:c23Small]...)
 	targets = append(targets, c23ExtraTargets...)
+	// targets of the large configurations
+	largeTargets := []c23Named{c23Peers[0], c23Peers[3], c23Peers[5], c23Peers[10], c23ExtraTargets[0], c23ExtraTargets[2], c23ExtraTargets[3], c23ExtraTargets[4]}
 
 	var pn, tn []string
 	for _, p := range c23Peers {
@@ -196,7 +239,12 @@ func TestVerifC23(t *testing.T) {
 
 	mc.Run(t, mc.Config{ID: "C23", Name: "C23-closest", MaxDev: -1, Params: map[string]interface{}{
 		"peer_alphabet":       pn,
-		"connected_sets":      fmt.Sprintf("all %d subsets of the peer alphabet with <= %d members", len(subsets), maxSize),
+		"connected_sets":      fmt.Sprintf("all %d subsets of the first %d peers with <= %d members", nSmall, c23Small, maxSize),
+		"large_configurations": map[string]interface{}{
+			"connected_sets": c23Large, "peer_reachability": c23LargeReachNames,
+			"skip_lists":     "for every target: the k nearest connected peers for k = 0..n, the k farthest for k = 1..n, all but one for every peer, one unconnected address",
+			"closest_peers":  "limits 0..n+1 with skip lists none / 3 nearest / 3 farthest / all",
+			"targets":        "p0, p3, p5, p10, self, t(b0^a0), t(b31^03), t(b0^80,b31^03)"},
 		"connect_order":       []string{"ascending", "descending"},
 		"peer_reachability":   map[int]string{2: "every assignment of {not public, public} to the connected peers (not public = never reported for p0,p2,p4,p6, reported private for p1,p3,p5,p7)", 3: "every assignment of {unknown (never reported), public, private} to the connected peers"}[reachArity],
 		"self_reachability":   c23ReachNames,
@@ -208,9 +256,13 @@ func TestVerifC23(t *testing.T) {
 	}}, func(x *mc.X) {
 		set := subsets[x.Choose(len(subsets))]
 		n := len(set)
+		large := n > maxSize
 		nm := 1
 		for i := 0; i < n; i++ {
 			nm *= reachArity
+		}
+		if large {
+			nm = len(c23LargeReachNames)
 		}
 		desc := x.Choose(2) == 1 // before the mask: shards split on the first two choices
 		mask := x.Choose(nm)
@@ -227,12 +279,19 @@ func TestVerifC23(t *testing.T) {
 		reach := map[int]int{}
 		m := mask
 		var desc2 []string
-		for _, pi := range set {
+		for pos, pi := range set {
+			if large {
+				reach[pi] = c23LargeReach(mask, pos, n)
+				continue
+			}
 			reach[pi] = m % reachArity
 			m /= reachArity
 			if reachArity == 2 && reach[pi] == 0 && pi%2 == 1 {
 				reach[pi] = 2
 			}
+		}
+		if large {
+			x.Tag("large-configuration")
 		}
 		for _, pi := range order {
 			p := c23Peers[pi]
@@ -275,6 +334,38 @@ func TestVerifC23(t *testing.T) {
 			skips = append(skips, skipList{"all but last", append([]boson.Address{}, connected[:n-1]...), false})
 		}
 		skips = append(skips, skipList{"unconnected t(b0^20)", []boson.Address{c23ExtraTargets[1].addr}, false})
+		// large configurations: skip lists of every length, relative to the target
+		skipsFor := func(target boson.Address) []skipList {
+			if !large {
+				return skips
+			}
+			byDist := append([]boson.Address{}, connected...)
+			sort.SliceStable(byDist, func(i, j int) bool { return c23Dist(byDist[i], target).Cmp(c23Dist(byDist[j], target)) < 0 })
+			out := []skipList{{"none", nil, true}}
+			for kk := 1; kk <= n; kk++ {
+				out = append(out, skipList{fmt.Sprintf("the %d nearest", kk), append([]boson.Address{}, byDist[:kk]...), kk == 3 || kk == n})
+			}
+			for kk := 1; kk <= n; kk++ {
+				out = append(out, skipList{fmt.Sprintf("the %d farthest", kk), append([]boson.Address{}, byDist[n-kk:]...), kk == 3})
+			}
+			for i := range byDist {
+				var l []boson.Address
+				l = append(l, byDist[:i]...)
+				l = append(l, byDist[i+1:]...)
+				out = append(out, skipList{"all but " + c23Name(byDist[i]), l, false})
+			}
+			out = append(out, skipList{"unconnected t(b0^20)", []boson.Address{c23ExtraTargets[1].addr}, false})
+			return out
+		}
+		limits := []int{0, 1, 2, n + 1}
+		qTargets := targets
+		if large {
+			limits = nil
+			for l := 0; l <= n+1; l++ {
+				limits = append(limits, l)
+			}
+			qTargets = largeTargets
+		}
 
 		eligible := func(filter bool, skip []boson.Address) []boson.Address {
 			var e []boson.Address
@@ -299,9 +390,13 @@ func TestVerifC23(t *testing.T) {
 				k.UpdateReachability(selfReach)
 			}
 			x.Check(k.reachability == selfReach, "self-reachability-not-recorded", "UpdateReachability(%s) left %s", c23ReachNames[si], k.reachability)
-			for _, tg := range targets {
+			for _, tg := range qTargets {
+				tgSkips := skipsFor(tg.addr)
 				for _, filter := range []bool{false, true} {
-					for _, sk := range skips {
+					for _, sk := range tgSkips {
+						if len(sk.addrs) > 8 {
+							x.Tag("skip-list-longer-than-8")
+						}
 						el := eligible(filter, sk.addrs)
 						sortByDist(el, tg.addr)
 						for _, includeSelf := range []bool{false, true} {
@@ -407,7 +502,7 @@ func TestVerifC23(t *testing.T) {
 						if si > 0 || !sk.multi {
 							continue
 						}
-						for _, limit := range []int{0, 1, 2, n + 1} {
+						for _, limit := range limits {
 							tg, limit, filter, sk := tg, limit, filter, sk
 							what := func() string {
 								return fmt.Sprintf("ClosestPeers(target=%s, limit=%d, reachable-filter=%v, skip=%s)", tg.name, limit, filter, sk.name)
@@ -448,6 +543,9 @@ func TestVerifC23(t *testing.T) {
 							}
 							if len(got) >= 2 {
 								x.Tag("several-closest-peers")
+							}
+							if len(got) >= 10 {
+								x.Tag("ten-or-more-closest-peers")
 							}
 						}
 					}
